@@ -94,7 +94,9 @@ enum Spec {
     /// 8 like 0 with an immediate cancel, but driven on a current-thread runtime: POST /tasks and POST cancel
     /// complete before the spawned run_task is polled for the first time (cancel before it subscribes),
     /// 9 Command::spawn fails (PATH without bash), 10 the artifacts dir cannot be created (`.rip` is a file;
-    /// a world of its own)
+    /// a world of its own), 11 a daemon that left the task's process group (setsid) holds stdout and writes
+    /// `err` `late_ms` later while the task is cancelled: the kill does not reach it, the cancelled status
+    /// still comes after its output
     Task { variant: u64, out: Segs, err: Segs, cap: u64, plimit: u64, exit: u64, cancel_after_ms: Option<u64>, page: u64, late_ms: u64 },
     /// a real foreground `bash` tool run; late_ms > 0: the shell exits at once and a descendant that holds
     /// both pipes writes `err` to stderr `late_ms` later (the tool's captures run to EOF)
@@ -817,7 +819,8 @@ async fn run_task(w: &mut World, spec: &Spec) -> (Obs, Vec<u64>) {
     std::fs::write(w.ws.join(&fo), &outb).unwrap();
     std::fs::write(w.ws.join(&fe), &errb).unwrap();
     let tail = if variant == 8 { "; sleep 1.2" } else if cancel_after_ms.is_some() { "; sleep 3" } else { "" };
-    let late = (5..=7).contains(&variant);
+    let late = (5..=7).contains(&variant) || variant == 11;
+    let dstart = format!("daemon{}.started", w.n);
     let marker = format!("late{}.done", w.n);
     let d = format!("{}.{:03}", late_ms / 1000, late_ms % 1000);
     // variant 4: the shell exits at once while a background writer still holds stderr: the terminal
@@ -830,11 +833,12 @@ async fn run_task(w: &mut World, spec: &Spec) -> (Obs, Vec<u64>) {
         5 => format!("cat {fo}; (sleep {d}; cat {fe}; touch {marker}) 2>/dev/null & exit {exit}"),
         6 => format!("cat {fo}; (sleep {d}; cat {fe} >&2; touch {marker}) >/dev/null & exit {exit}"),
         7 => format!("cat {fo}; (sleep {d}; cat {fe}; cat {fe} >&2; touch {marker}) & exit {exit}"),
+        11 => format!("cat {fo}; (setsid sh -c 'touch {dstart}; sleep {d}; cat {fe}; touch {marker}' 2>/dev/null &); sleep 30; exit {exit}"),
         _ => format!("cat {fo}; cat {fe} >&2{tail}; exit {exit}"),
     };
     // what each stream of the process tree writes, in order
     let (exp_out, exp_err): (Vec<u8>, Vec<u8>) = match variant {
-        5 => ([outb.clone(), errb.clone()].concat(), vec![]),
+        5 | 11 => ([outb.clone(), errb.clone()].concat(), vec![]),
         7 => ([outb.clone(), errb.clone()].concat(), errb.clone()),
         _ => (outb.clone(), errb.clone()),
     };
@@ -859,6 +863,15 @@ async fn run_task(w: &mut World, spec: &Spec) -> (Obs, Vec<u64>) {
         return (o, vec![]);
     }
     let live = if late { Some(sse_watch(&w.app, &id)) } else { None };
+    if variant == 11 {
+        // cancel once the daemon is certainly in a session of its own (it says so itself)
+        for _ in 0..12_000 {
+            if w.ws.join(&dstart).exists() {
+                break;
+            }
+            tokio::time::sleep(Duration::from_millis(5)).await;
+        }
+    }
     if let Some(ms) = cancel_after_ms {
         if ms > 0 {
             tokio::time::sleep(Duration::from_micros(ms * 700)).await;
@@ -947,7 +960,7 @@ async fn run_task(w: &mut World, spec: &Spec) -> (Obs, Vec<u64>) {
         if !sum["error"].is_null() {
             o.fail("summary_wrong", format!("{name} summary of a task whose process tree has ended carries an error: {sum}"));
         }
-        if cancelled || (late && !late_done) {
+        if (cancelled && variant != 11) || (late && !late_done) {
             if blob.len() as u64 > cap || !content.starts_with(&blob) {
                 o.fail("stored_not_prefix", format!("{name} log of a cancelled task ({} bytes) is not a prefix of the output within cap {cap}", blob.len()));
             }
@@ -1288,6 +1301,10 @@ fn main() {
             all.push(Spec::Bash { out, err, pmax: *r.pick(&[4u64, 64, 8192]), amax: *r.pick(&[5u64, 100, 1 << 20]), exit: *r.pick(&[0u64, 2]), late_ms: [1400u64, 2400, 1900, 2900][(i % 4) as usize] });
         }
         for _ in 0..(nlate / 4) {
+            let (out, err) = (vec![(gen_text(&mut r, 10), 1)], vec![(gen_text(&mut r, 8), 1)]);
+            all.push(Spec::Task { variant: 11, out, err, cap: 1 << 20, plimit: *r.pick(&[0u64, 64]), exit: 0, cancel_after_ms: Some(0), page: 0, late_ms: 1200 + r.below(800) });
+        }
+        for _ in 0..(nlate / 4) {
             let out = vec![(gen_text(&mut r, 12), 1)];
             all.push(Spec::Task { variant: 8, out, err: vec![], cap: 1 << 20, plimit: 64, exit: 0, cancel_after_ms: Some(0), page: 0, late_ms: 0 });
         }
@@ -1298,7 +1315,7 @@ fn main() {
     let mut started: std::collections::HashMap<usize, tokio::task::JoinHandle<(Obs, Vec<u64>)>> = Default::default();
     let mut started_bash: std::collections::HashMap<usize, tokio::task::JoinHandle<(Obs, Vec<(Spec, Vec<u64>)>)>> = Default::default();
     for (i, s) in all.iter().enumerate() {
-        if let Spec::Task { variant: 5..=7 | 10, .. } = s {
+        if let Spec::Task { variant: 5..=7 | 10 | 11, .. } = s {
             let sp = s.clone();
             started.insert(i, rt.spawn(async move {
                 let mut wd = World::new();
@@ -1338,7 +1355,7 @@ fn main() {
         // (observations, cases for the model)
         let got: Result<(Obs, Vec<(Spec, Vec<u64>)>), _> = match s {
             Spec::Task { variant, late_ms, .. } => {
-                if (5..=7).contains(variant) {
+                if (5..=7).contains(variant) || *variant == 11 {
                     res.bump(&format!("late_writer=v{variant}/{}ms", late_ms / 500 * 500));
                 }
                 if let Some(h) = started.remove(&i) {
